@@ -131,7 +131,7 @@ pub fn orchestrate<P: Prop>(tier: Tier) -> i32 {
         }
     }
 
-    let stall_limit = Duration::from_secs(std::env::var("MZV_STALL_S").ok().and_then(|s| s.parse().ok()).unwrap_or(180));
+    let stall_limit = Duration::from_secs(std::env::var("MZV_STALL_S").ok().and_then(|s| s.parse().ok()).unwrap_or(300));
     let mut reports: Vec<WorkerReport> = Vec::new();
     let mut crashed: Vec<(String, u64, u64, u64, String)> = Vec::new(); // profile, seed, kind, idx, how
     let mut live: Vec<Slot> = slots;
